@@ -50,11 +50,19 @@ nested := [a, o, [7, 8]]
 e := 1.try
 ew := 1.try./(0).err
 kf := {|a: 0, b: 0| [a, b, \_]}
+d3 := a5[0:3]
+dk := {x: 1, y: 2, z: 3}.keys
+dv := {x: 1, y: 2, z: 3}.values
+dm := a@{|x| x * 2}
+dc := a + [4, 5]
+dr := (1:4).A
+do := {z: 9, **o}
 `
 
-var poolVars = []string{"n", "fl", "s", "a", "a5", "o", "ch", "m", "r", "f", "nested", "e", "ew"}
+var poolVars = []string{"n", "fl", "s", "a", "a5", "o", "ch", "m", "r", "f", "nested", "e", "ew", "d3", "dk", "dv", "dm", "dc", "dr", "do"}
 
-var poolKind = map[string]string{"n": "int", "fl": "float", "s": "str", "a": "arr", "a5": "arr", "o": "obj", "ch": "obj", "m": "map", "r": "range", "f": "func", "nested": "arr", "e": "either", "ew": "err"}
+var poolKind = map[string]string{"n": "int", "fl": "float", "s": "str", "a": "arr", "a5": "arr", "o": "obj", "ch": "obj", "m": "map", "r": "range", "f": "func", "nested": "arr", "e": "either", "ew": "err",
+	"d3": "arr", "dk": "arr", "dv": "arr", "dm": "arr", "dc": "arr", "dr": "arr", "do": "obj"}
 
 type tcase struct {
 	Ops []string `json:"ops"` // each `tK := expr`
